@@ -134,6 +134,12 @@ Section Generic.
     injection H as <- <-. exact (GAll_hide _ _ HA).
   Qed.
 
+  Lemma GAll_reset t : GAll acct (greset S Lay C t).
+  Proof.
+    induction t as [s c l n kids IH] using gtree_ind'. cbn. constructor; [unfold acct, stats0; cbn; lia|].
+    apply Forall_map. exact IH.
+  Qed.
+
   (* ---------------- the lossy-hit counters only grow ---------------- *)
   Fixpoint tl (t : gtree) : N :=
     match t with EngineReal.GNode _ _ _ _ _ _ n kids => (n_lossy n + fold_right (fun k a => tl k + a) 0 kids)%N end.
@@ -532,3 +538,78 @@ Section RealCache.
     symmetry. induction (N.to_nat CACHE_SIZE); cbn; auto.
   Qed.
 End RealCache.
+
+(* ---------------------------------------------------------------------------------------------------------------- *)
+(* transfer: a real-cache evaluation without lossy hit returns what the exact-key memo returns *)
+Section RealTransfer.
+  Context {T : Type} `{Num T}.
+  Variables (S In Out Lay : Type).
+  Variable mode : In -> RunMode.
+  Variable is_none : S -> bool.
+  Variable hidden_out : Out.
+  Variable zero_lay : Lay.
+  Variable algo : S -> list S -> In -> Alg In Out Lay.
+  Variable mcalls : S -> list S -> In -> N.
+  Variable key_of : In -> Cache.key T.
+  Variable osize : Out -> Cache.size T.
+  Variable from_outer : Cache.size T -> Out.
+  Variable in_eqb : In -> In -> bool.
+  Variable is_outer : Out -> bool.
+
+  Hypothesis in_eqb_eq : forall a b, in_eqb a b = true -> a = b.
+  Hypothesis is_outer_spec : forall o, is_outer o = true -> from_outer (osize o) = o.
+
+  Notation memo_real := (memo_real S In Out Lay mode is_none hidden_out zero_lay algo mcalls key_of osize from_outer in_eqb is_outer).
+  Notation rtree := (rtree S In Out Lay).
+  Notation rskel := (gskel S Lay (rcache In Out)).
+  Notation lossy_hits := (sum_stats S Lay (rcache In Out) n_lossy).
+
+  (* every ghost entry of every cache of the tree is a correct memo entry *)
+  Definition RValid : rtree -> Prop :=
+    GValid S In Out Lay mode is_none hidden_out algo (rcache In Out) (rpairs In Out).
+
+  Theorem memo_real_sound f (t : rtree) i o t' :
+    RValid t -> memo_real f t i = Some (o, t') -> lossy_hits t' = lossy_hits t ->
+    (exists f', plain S In Out Lay mode is_none hidden_out algo f' (rskel t) i = Some o) /\ RValid t' /\ rskel t' = rskel t.
+  Proof.
+    intros HV Hm HL. unfold EngineReal.memo_real in Hm.
+    eapply (gmemo_sound_when_faithful S In Out Lay mode is_none hidden_out zero_lay algo mcalls (rcache In Out)
+              (rget In Out mode key_of osize from_outer) (rlossy In Out mode key_of osize in_eqb is_outer) (rstore In Out mode key_of)
+              (rclear In Out) (rpairs In Out)); [| | |exact HV|exact Hm|].
+    - intros c i0 o0. apply real_get_faithful; assumption.
+    - intros c i0 o0 e. apply real_store_entries.
+    - intros c e. apply real_clear_entries.
+    - rewrite !tl_sum. rewrite HL. apply N.le_refl.
+  Qed.
+
+  Lemma sk_ind_r (P : sk S -> Prop) : (forall s kids, Forall P kids -> P (SNode S s kids)) -> forall k, P k.
+  Proof.
+    intros HP. fix IH 1. intros [s kids]. apply HP.
+    induction kids as [|x r IHr]; constructor; [apply IH|exact IHr].
+  Qed.
+
+  Lemma RValid_fresh k : RValid (fresh_real S In Out Lay zero_lay k) /\ rskel (fresh_real S In Out Lay zero_lay k) = k.
+  Proof.
+    induction k as [s kids IH] using sk_ind_r.
+    unfold fresh_real. cbn. split.
+    - constructor.
+      + intros i o Hin. rewrite rpairs_new in Hin. destruct Hin.
+      + apply Forall_map. rewrite Forall_forall in *. intros x Hx. apply IH. exact Hx.
+    - f_equal. rewrite map_map. rewrite <- (map_id kids) at 2. apply map_ext_Forall.
+      rewrite Forall_forall in *. intros x Hx. apply IH. exact Hx.
+  Qed.
+
+  (* against the exact-key memo of Model/Engine.v on any valid tree with the same skeleton (e.g. the fresh one) *)
+  Theorem memo_real_equals_exact f (t : rtree) i o t' fe te oe te' :
+    RValid t -> memo_real f t i = Some (o, t') -> lossy_hits t' = lossy_hits t ->
+    Valid S In Out Lay mode is_none hidden_out algo te -> skel S In Out Lay te = rskel t ->
+    memo S In Out Lay mode in_eqb is_none hidden_out zero_lay algo fe te i = Some (oe, te') ->
+    o = oe /\ RValid t' /\ rskel t' = rskel t.
+  Proof.
+    intros HV Hm HL HVe Hsk Hme.
+    destruct (memo_real_sound _ _ _ _ _ HV Hm HL) as [[f1 Hp1] [HV' Hs']].
+    destruct (memo_sound S In Out Lay mode in_eqb is_none hidden_out zero_lay algo in_eqb_eq fe _ _ _ _ HVe Hme) as [[f2 Hp2] _].
+    rewrite Hsk in Hp2. split; [|split; assumption].
+    eapply plain_det; eauto.
+  Qed.
+End RealTransfer.
